@@ -267,6 +267,9 @@ def containment_operator(ctx: Ctx, rep: Report, q: str, f: Optional[Func] = None
     f = f if f is not None else ctx.func(q)
     _seen = _seen if _seen is not None else set()
     _seen.add(id(f))
+    from .normalise import normalised as _nrm
+
+    f = _nrm(ctx, f, "localcalls")  # a local `def covered(item): return item in self._items or ...` is read where it is called
     rep.require(len(f.params) >= 2, f"{q} lost its operand")
     other = f.params[1]
     t = _taint(f, {"self": "self", other: "other"})
